@@ -302,8 +302,11 @@ func zeroInterfaceValue() reflect.Value {
 func wantEmptyInterface(n *node) bool {
 	return isEmptyInterface(n.typ) ||
 		n.anc.action == aAssign && n.anc.typ.cat == interfaceT && len(n.anc.typ.field) == 0 ||
-		n.anc.kind == returnStmt && n.anc.val.(*node).typ.ret[0].cat == interfaceT && len(n.anc.val.(*node).typ.ret[0].field) == 0
+		n.anc.kind == returnStmt && returnType(n).cat == interfaceT && len(returnType(n).field) == 0
 }
+
+// returnType returns the type of the function result set by n, an operand of a return statement.
+func returnType(n *node) *itype { return n.anc.val.(*node).typ.ret[childPos(n)] }
 
 func genValueOutput(n *node, t reflect.Type) func(*frame) reflect.Value {
 	value := genValue(n)
@@ -314,8 +317,8 @@ func genValueOutput(n *node, t reflect.Type) func(*frame) reflect.Value {
 			return value
 		}
 		fallthrough
-	case n.anc.kind == returnStmt && n.anc.val.(*node).typ.ret[0].cat == interfaceT:
-		if nod, ok := n.anc.val.(*node); !ok || len(nod.typ.ret[0].field) == 0 {
+	case n.anc.kind == returnStmt && returnType(n).cat == interfaceT:
+		if nod, ok := n.anc.val.(*node); !ok || len(nod.typ.ret[childPos(n)].field) == 0 {
 			// empty interface, do not wrap
 			return value
 		}
